@@ -223,7 +223,7 @@ func (l filterList) String() string {
 
 type interFieldFilter rule.FilterSpec
 
-var comparisonRegexp = regexp.MustCompile(`(\w+)\s*(!?=)(\w+)`)
+var comparisonRegexp = regexp.MustCompile(`^(\w+)\s*(!?=)(\w+)$`)
 
 func (f *interFieldFilter) Set(value string) error {
 	values := comparisonRegexp.FindStringSubmatch(value)
@@ -242,7 +242,7 @@ func (f *interFieldFilter) Set(value string) error {
 
 type valueFilter rule.FilterSpec
 
-var filterRegexp = regexp.MustCompile(`(\w+)\s*(<=|>=|&=|=|!=|<|>|&)(\S+)`)
+var filterRegexp = regexp.MustCompile(`^(\w+)\s*(<=|>=|&=|=|!=|<|>|&)(\S+)$`)
 
 func (f *valueFilter) Set(value string) error {
 	values := filterRegexp.FindStringSubmatch(value)
